@@ -34,7 +34,7 @@ FirstCerIdx(ms) == IF \E j \in 1..Len(ms) : IsCer(ms[j]) THEN CHOOSE j \in 1..Le
 GoodCea(m) == IsCea(m) /\ m.oh # ""
 FirstCeaIdx(ms) == IF \E j \in 1..Len(ms) : GoodCea(ms[j]) THEN CHOOSE j \in 1..Len(ms) : GoodCea(ms[j]) /\ \A k \in 1..(j - 1) : ~GoodCea(ms[k]) ELSE 0
 
-Step(M, st) ==
+StepN(M, st) ==
   LET M0  == [M EXCEPT !.i = @ + 1]
       now == st.snap.t
       feed == IsFeed(st)
@@ -82,7 +82,7 @@ Step(M, st) ==
       to(c, hi) == IF M0.dir[c] = "out"
                    THEN Eff(M0.opeer[c], "cea")
                    ELSE LET a == MCfg.node.cer  b == Eff(M0.ipeer[c], "cer") IN IF hi THEN (IF a > b THEN a ELSE b) ELSE (IF a < b THEN a ELSE b)
-      late == {c \in CIds : M0.dir[c] # "" /\ M0.est[c] /\ ~succNow(c) /\ ~M0.dead[c] /\ ~closedNow(c) /\ ~(feed /\ c = c0) /\
+      late == {c \in CIds : M0.dir[c] # "" /\ M0.est[c] /\ ~succNow(c) /\ ~M0.dead[c] /\ ~closedNow(c) /\ ~((feed \/ IsRx(st)) /\ c = st.act.c) /\
                  now >= M0.lastRx[c] + to(c, TRUE) + MCfg.node.wakeup + 1}
       estNow(c) == M0.est[c] \/ (st.act.a = "connect_result" /\ st.act.c = c /\ st.act.err = 0)
       lr(c) == IF st.act.a = "connect_result" /\ st.act.c = c THEN now ELSE M0.lastRx[c]     \* bytes arriving in the same second are unordered
@@ -96,7 +96,7 @@ Step(M, st) ==
                        !.cerSeen = [c \in CIds |-> @[c] \/ (c = c0 /\ ci # 0)],
                        !.ceaSeen = [c \in CIds |-> @[c] \/ (c = c0 /\ ai # 0)],
                        !.ipeer = [c \in CIds |-> IF c = c0 /\ ci # 0 /\ ms[ci].oh \in MPeers THEN ms[ci].oh ELSE @[c]],
-                       !.lastRx = [c \in CIds |-> IF feed /\ c = c0 THEN now ELSE @[c]]]
+                       !.lastRx = [c \in CIds |-> IF (feed \/ IsRx(st)) /\ c = st.act.c THEN now ELSE @[c]]]
       OnOut(A, e) ==
         CASE e.ev = "accept" -> [A EXCEPT !.dir[e.c] = "in", !.est[e.c] = TRUE, !.lastRx[e.c] = now]
           [] e.ev = "dial"   -> [A EXCEPT !.dir[e.c] = "out", !.opeer[e.c] = e.p, !.est[e.c] = (e.r = "ok"), !.lastRx[e.c] = now,
@@ -108,4 +108,5 @@ Step(M, st) ==
                                                     !.dead[st.act.c] = @ \/ st.act.err # 0]
        [] st.act.a \in {"peer_close", "peer_reset"} -> [M3 EXCEPT !.dead[st.act.c] = TRUE]
        [] OTHER -> M3
+Step(M, s0) == StepN(M, Norm(s0))
 =============================================================================
